@@ -28,6 +28,7 @@ func init() {
 }
 
 type tryProg struct {
+	Late    bool   `json:"late,omitempty"` // finally fails at once; fail/success = [gate; pip:run; end], gate opened after finally failed
 	Body    *gTask `json:"body"`
 	Finally *gTask `json:"finally,omitempty"`
 	Fail    *gTask `json:"fail,omitempty"`
@@ -77,6 +78,34 @@ func genTry(g *c14gen) *tryProg {
 	g.fork = false
 	p.Body.Ctx = 50
 	p.Body.walk(func(x *gTask) { x.Ctx = 50 })
+	if g.rng.Chance(20) {
+		// a handler that still has a nested pip:run to issue when its sibling has already failed and finished
+		p.Late = true
+		build := func(local string, kinds ...string) *gTask {
+			g.uid++
+			t := &gTask{Local: local, Full: "T:" + local, UID: fmt.Sprintf("u%d", g.uid)}
+			t.Num = g.names.num(t.Full)
+			for _, k := range kinds {
+				c := &gCmd{Kind: k}
+				if k == "spawn" {
+					g.uid++
+					sub := &gTask{Local: "c0", Full: t.Full + ":c0", UID: fmt.Sprintf("u%d", g.uid), Body: []*gCmd{{Kind: "begin"}}}
+					sub.Num = g.names.num(sub.Full)
+					c.Sub = sub
+				}
+				t.Body = append(t.Body, c)
+			}
+			return t
+		}
+		p.Finally = build("finally", "fail")
+		p.Fail = build("fail", "gate", "spawn", "end")
+		p.Success = build("success", "gate", "spawn", "end")
+		for k, h := range []*gTask{p.Finally, p.Fail, p.Success} {
+			c := 51 + k
+			h.walk(func(x *gTask) { x.Ctx = c })
+		}
+		return p
+	}
 	if g.rng.Chance(65) {
 		p.Finally = mk("finally", 20, 1)
 	}
@@ -133,6 +162,14 @@ func runTry(pa *pipApp, rng *RNG, epoch string, p *tryProg, pre func(root app.Sc
 			}
 		})
 	}
+	var lateGates []string
+	if p.Late {
+		for _, h := range []*gTask{p.Fail, p.Success} {
+			id := cmdID(epoch, h.UID, 0)
+			lateGates = append(lateGates, id)
+			forkGate[id] = true
+		}
+	}
 	for _, t := range all {
 		t.walk(func(x *gTask) {
 			for i, c := range x.Body {
@@ -156,6 +193,14 @@ func runTry(pa *pipApp, rng *RNG, epoch string, p *tryProg, pre func(root app.Sc
 		}
 		// fork: let "a" fail only when "b" is inside its gate, and hold "b" until the fork command has
 		// returned and the handlers had every chance to start (they must not: "b" is still running)
+		if p.Late {
+			// open the handler's gate only when the finally handler has failed and finished
+			waitFor(500*time.Millisecond, func() bool { return pa.log.has("E", cmdID(epoch, p.Finally.UID, 0)) })
+			time.Sleep(5 * time.Millisecond)
+			for _, g := range lateGates {
+				pa.log.release(g)
+			}
+		}
 		for _, f := range forks {
 			waitFor(300*time.Millisecond, func() bool { return pa.log.isInside(f.gateB) })
 			pa.log.release(f.gateA)
@@ -229,6 +274,7 @@ func (l *probeLog) has(kind, id string) bool {
 
 // subtree analysis of one task from the trace: did it (or something it spawned) fail; first/last seq
 type subRes struct {
+	acceptErr   string // a nested submission was accepted/refused against the rule (valid names => accepted)
 	complete    bool // executed all its commands, or stopped at its own failing command / failed nested task
 	failed      bool
 	first, last int
@@ -249,6 +295,7 @@ func analyse(t *gTask, evs map[string][]pEvent) (r subRes) {
 	}
 	pos := 0
 	stopped := false
+	sibs := map[string]bool{}
 	for k := 0; k < len(l); k++ {
 		e := l[k]
 		_, i := parseID(e.ID)
@@ -296,6 +343,18 @@ func analyse(t *gTask, evs map[string][]pEvent) (r subRes) {
 		case "fail":
 			r.failed, stopped = true, true
 		case "spawn":
+			exp := !sibs[c.Sub.Local]
+			for _, w := range c.Sub.WLoc {
+				if w == c.Sub.Local || !sibs[w] {
+					exp = false
+				}
+			}
+			if exp != x.OK && r.acceptErr == "" {
+				r.acceptErr = fmt.Sprintf("nested submission %s: accepted=%v although the rule (new name, known wait names, healthy scope) says %v", c.Sub.Full, x.OK, exp)
+			}
+			if x.OK {
+				sibs[c.Sub.Local] = true
+			}
 			if !x.OK {
 				r.failed, stopped = true, true
 			} else {
@@ -303,6 +362,9 @@ func analyse(t *gTask, evs map[string][]pEvent) (r subRes) {
 				if cr.seqErr != "" {
 					r.seqErr = cr.seqErr
 					return
+				}
+				if cr.acceptErr != "" && r.acceptErr == "" {
+					r.acceptErr = cr.acceptErr
 				}
 				if cr.first >= 0 {
 					upd(cr.first)
@@ -353,6 +415,9 @@ func c16oracles(o *Out, cs *c16case) {
 	if b.seqErr != "" {
 		fail("sequential_body", b.seqErr)
 	}
+	if b.acceptErr != "" {
+		fail("nested_submission", b.acceptErr)
+	}
 	if !b.ran {
 		fail("body_runs", "the body executed no command")
 	}
@@ -372,6 +437,9 @@ func c16oracles(o *Out, cs *c16case) {
 		r := res[h]
 		if r.seqErr != "" {
 			fail("sequential_body", r.seqErr)
+		}
+		if r.acceptErr != "" {
+			fail("nested_submission", "inside handler "+h.Local+": "+r.acceptErr)
 		}
 		if r.ran && !want {
 			fail(name, fmt.Sprintf("handler %s ran although body failed=%v", h.Local, b.failed))
@@ -605,6 +673,9 @@ func runC16(o *Out, rng *RNG, tier string, replay string) {
 		}
 		if ob.MaxIn >= 2 {
 			o.Stat("blocks_with_overlapping_commands")
+		}
+		if p.Late {
+			o.Stat("blocks_with_late_nested_run")
 		}
 		nested := 0
 		p.Body.walk(func(x *gTask) {
